@@ -211,8 +211,8 @@ func checkC19(r *Run) {
 	r3 := r.Rule("R-C19-3", "error-construction discipline: returned errors are nil / passed through / sentinels / wrapError* results / library error structs")
 	r4 := r.Rule("R-C19-4", "an interrupted QoS>=1 publish, subscribe or unsubscribe returns an ErrorWithRetry whose handle re-issues that request on the client it is given")
 	r5 := r.Rule("R-C19-5", "a cancelled caller context is reported as that context's error (request waits; KeepAlive's prioritised classification)")
-	r3.Floor(40)
-	r4.Floor(14)
+	r3.Floor(25)
+	r4.Floor(8)
 	// --- R-C19-1
 	impl := c.Func("wrapErrorImpl")
 	if impl == nil {
@@ -531,7 +531,7 @@ func (c *Ctx) ruleErrorConstruction(rr *RuleRep) {
 		found := false
 		eachInstr(f, func(in ssa.Instruction) {
 			if k, ok := in.(*ssa.Call); ok {
-				if callee := c.StaticCalleeOf(&k.Call); callee != nil && callee.Pkg == c.Pkg && strings.HasPrefix(callee.Name(), "wrapError") && len(k.Call.Args) > 0 && c.isGlobalLoad(k.Call.Args[0], "ErrInvalidSubAck") {
+				if callee := c.StaticCalleeOf(&k.Call); callee != nil && callee.Pkg == c.Pkg && c.isWrapFn(callee) && len(k.Call.Args) > 0 && c.isGlobalLoad(k.Call.Args[0], "ErrInvalidSubAck") {
 					found = true
 				}
 			}
